@@ -233,7 +233,23 @@ def run(F, tier, res):
         oki += 1
     else:
         res.violate('INIT', 'fn=%s;provenance' % ih, 'the old/new counters are not seeded from the start of the first / last coordinate pair of the hunk header', where=F.bodies[ih]['mir']['span']['at'])
-    res.rule('C05.INIT', ni, 2, 'call sites of the per-hunk initialiser (guarded by config.line_numbers, on all paths) + provenance of its two counters', discharged=oki)
+    # the coordinates are parsed from the text between the @@ markers only (group 1 of the hunk-header regex), not from the whole
+    # line (whose trailing code fragment may contain `-1`, `+7`, ...)
+    from .. import rxsites
+    for q in sorted(F.fn_bodies):
+        for i, c in F.calls(q):
+            if callee_of(c).endswith('Regex::captures_iter') and any(
+                    rr[0] == 'call' and 'COORDINATE' in rr[1].upper() for rr in F.trace(q, c['args'][0])):
+                ni += 1
+                roots = F.trace(q, c['args'][1], deep=True)
+                from_group = any(rr[0] == 'call' and ('Captures' in rr[1] and rr[1].endswith(('::index', '::get'))) for rr in roots)
+                whole = any(rr[0] == 'param' and not rr[2] for rr in F.trace(q, c['args'][1]))
+                if from_group and not whole:
+                    oki += 1
+                else:
+                    res.violate('INIT', 'fn=%s;coordinates-source' % q, 'hunk coordinates are parsed from more than the text between the @@ markers: a `-N`/`+N` in the code fragment '
+                                'is taken for a start position', where=F.span_of_call(c))
+    res.rule('C05.INIT', ni, 3, 'call sites of the per-hunk initialiser (guarded by config.line_numbers, on all paths) + provenance of its two counters', discharged=oki)
     # ---------- PANEL
     pls = [p for p in F.fn_bodies if any(callee_of(c) == ln for _, c in F.calls(p))]
     PAN = 'minusplus::MinusPlusIndex'   # PanelSide is an alias: Left = Minus, Right = Plus
